@@ -58,6 +58,23 @@ func isOutOfFlow(n *Node) bool {
 	return n.Float != "" || n.Pos == "absolute" || n.Pos == "fixed"
 }
 
+// isFootnoteNode: the element is a footnote element (css-gcpm-3 §2.1, `float: footnote`).  The
+// computed float of an absolutely positioned / fixed element is none (CSS 2.1 §9.7 rule 2), so
+// such an element is no footnote.
+func isFootnoteNode(n *Node) bool {
+	return n.Float == "footnote" && n.Pos != "absolute" && n.Pos != "fixed"
+}
+
+// footnoteDisplay: the display of a footnote element in the footnote area (css-gcpm-3 §2.4
+// footnote-display: block -> block element; inline -> inline element; compact -> the UA chooses
+// between the two, inline here as in WeasyPrint).
+func footnoteDisplay(n *Node) string {
+	if n.FD == "inline" || n.FD == "compact" {
+		return "inline"
+	}
+	return "block"
+}
+
 // blockify is the display column of the CSS 2.1 §9.7 table, extended with the css-display-3 §2.7
 // rows for flex and grid.
 func blockify(d string) string {
@@ -159,6 +176,8 @@ type einfo struct {
 	shown    bool   // takes part in box generation
 	replaced bool   // replaced element (its children generate nothing)
 	why      string // reason when !shown
+	footnote bool   // footnote element: its box lives in the footnote area, a ::footnote-call stands in its place
+	listItem bool   // generates a ::marker box
 }
 
 // isReplacedNode: <svg>, <img src>, <object data> with the (always loadable) test image.
@@ -208,6 +227,15 @@ func buildModel(root *Node) (byID map[int]*einfo, list []*einfo, rootNone bool) 
 		if sd != "none" && (isOutOfFlow(n) || p == nil) {
 			e.cd = blockify(sd)
 		}
+		e.listItem = isListItem(e.cd)
+		if sd != "none" && p != nil && isFootnoteNode(n) {
+			// css-gcpm-3 §2: the element is taken out of the flow into the footnote area, where
+			// footnote-display alone says whether it is a block or an inline element; a
+			// ::footnote-call (inline) stands where the element was.  display:none wins: the element
+			// "generates no boxes at all" (css-display-3 §2.5), footnote or not.
+			e.footnote = true
+			e.cd = footnoteDisplay(n)
+		}
 		e.replaced = isReplacedNode(n)
 		if e.replaced && isTableInternal(e.cd) {
 			// css-display-3 §2.4: a replaced element with a layout-internal display is handled as inline
@@ -229,6 +257,8 @@ func buildModel(root *Node) (byID map[int]*einfo, list []*einfo, rootNone bool) 
 		case sd == "none":
 			e.why = "display:none"
 		case childSuppressed(p.cd, e.cd):
+			// (for a footnote element the box standing in the parent is its inline ::footnote-call:
+			// never a table-column either)
 			e.why = "§17.2.1 rule 1.1/1.2 (child of " + p.cd + ")"
 		default:
 			e.shown = true
